@@ -67,9 +67,10 @@ def mode_cv(
     if classical:
         return np.array(len(freqs) * [Kb])
     else:
+        # Written with exp(-x) so that large x does not overflow.
         x = freqs / Kb / temp
-        expVal = np.exp(x)
-        return Kb * x**2 * expVal / (expVal - 1.0) ** 2
+        val = x * np.exp(-x / 2) / (-np.expm1(-x))
+        return Kb * val**2
 
 
 def mode_F(
@@ -96,7 +97,7 @@ def mode_F(
     if classical:
         return Kb * temp * np.log(freqs / (Kb * temp))
     else:
-        return Kb * temp * np.log(1.0 - np.exp((-freqs) / (Kb * temp))) + freqs / 2
+        return Kb * temp * np.log(-np.expm1((-freqs) / (Kb * temp))) + freqs / 2
 
 
 def mode_S(
@@ -123,10 +124,10 @@ def mode_S(
     if classical:
         return Kb - Kb * np.log(freqs / (Kb * temp))
     else:
-        val = freqs / (2 * Kb * temp)
-        return 1 / (2 * temp) * freqs * np.cosh(val) / np.sinh(val) - Kb * np.log(
-            2 * np.sinh(val)
-        )
+        # Written with exp(-x) so that large x does not overflow.
+        x = freqs / (Kb * temp)
+        val = -np.expm1(-x)
+        return Kb * (x * np.exp(-x) / val - np.log(val))
 
 
 def mode_ZPE(
